@@ -23,6 +23,7 @@ pub struct UrlParts {
     pub filter: Option<String>,
     /// (critical, name, value)
     pub exts: Vec<(bool, String, Option<String>)>,
+    pub raw_slash: bool,
 }
 
 /// Format as ldap://host/dn?attrs?scope?filter?exts; trailing empty fields are dropped unless
@@ -54,7 +55,8 @@ pub fn format_url(p: &UrlParts, keep_trailing: bool) -> String {
             fields.pop();
         }
     }
-    let mut url = format!("ldap://host.example/{}", pct(&p.base, "=,+"));
+    // '/' inside the DN is written literally when `raw_slash` is set (RFC 4516 allows it in the dn part)
+    let mut url = format!("ldap://host.example/{}", pct(&p.base, if p.raw_slash { "=,+/" } else { "=,+" }));
     for f in &fields {
         url.push('?');
         url.push_str(f);
